@@ -253,7 +253,7 @@ PRelocInfo ReadRelocInfo(FILE* f) {
     PExportEntry PExp;
     Boolean      OK = FALSE;
     LongWord     StringLen, StringPos;
-    LongInt      z;
+    LongInt      z, RelocsRead;
 
     /* get memory for structure */
 
@@ -284,7 +284,7 @@ PRelocInfo ReadRelocInfo(FILE* f) {
                             if (!Read8(f, &PEntry->Addr)) {
                                 break;
                             }
-                            if (!Read4(f, &StringPos)) {
+                            if (!Read4(f, &StringPos) || (StringPos >= StringLen)) {
                                 break;
                             }
                             PEntry->Name = PInfo->Strings + StringPos;
@@ -292,12 +292,13 @@ PRelocInfo ReadRelocInfo(FILE* f) {
                                 break;
                             }
                         }
+                        RelocsRead = z;
 
                         /* read export entries */
 
                         for (z = 0, PExp = PInfo->ExportEntries; z < PInfo->ExportCount;
                              z++, PExp++) {
-                            if (!Read4(f, &StringPos)) {
+                            if (!Read4(f, &StringPos) || (StringPos >= StringLen)) {
                                 break;
                             }
                             PExp->Name = PInfo->Strings + StringPos;
@@ -311,8 +312,16 @@ PRelocInfo ReadRelocInfo(FILE* f) {
 
                         /* read strings */
 
-                        if (z == PInfo->ExportCount) {
+                        if ((RelocsRead == (LongInt)PInfo->RelocCount)
+                            && (z == (LongInt)PInfo->ExportCount)) {
                             OK = ((fread(PInfo->Strings, 1, StringLen, f)) == StringLen);
+
+                            /* the names are used as C strings */
+
+                            if (OK && (StringLen > 0)
+                                && (PInfo->Strings[StringLen - 1] != '\0')) {
+                                OK = FALSE;
+                            }
                         }
                     }
                 }
